@@ -274,6 +274,18 @@ class Program:
                     tree = ast.parse(src, filename=rel)
                 except SyntaxError as e:
                     raise AnalysisError(f"{rel} does not parse: {e}") from e
+                # private helpers that did not exist at the analysed baseline are written out at
+                # their call sites (undoes extract-method refactorings; oqv/inline.py)
+                from .inline import write_out_new_helpers
+                from .canon import split_conditional_assignments
+                tree = split_conditional_assignments(tree)
+                tree, n_inl, new_names = write_out_new_helpers(tree)
+                self.inlined_helper_calls = getattr(self, "inlined_helper_calls", 0) + n_inl
+                if new_names:
+                    self.new_private_names = getattr(self, "new_private_names", {})
+                    self.new_private_names[rel] = sorted(new_names)
+                from .canon import canonicalise
+                tree = canonicalise(tree)
                 tree = _CanonCompare().visit(tree)
                 short = modname[len(PKG) + 1:] if modname != PKG else ""
                 m = Module(modname, short, rel, tree, src)
